@@ -25,7 +25,8 @@ enum DEv {
 
 fn gen_case(rng: &mut Rng) -> Case {
     let o = select::GenOpts { allow_not: false, ..super::c04::gen_opts() };
-    let doc = wl::tree(rng, &wl::TreeOpts { max_depth: 5, max_children: 4, ..Default::default() });
+    let custom = rng.chance(1, 12);
+    let doc = wl::tree(rng, &wl::TreeOpts { max_depth: if custom { 3 } else { 5 }, max_children: if custom { 8 } else { 4 }, custom, ..Default::default() });
     let mut sc = Scenario::new(doc.bytes);
     sc.esi = rng.chance(1, 6);
     let mut sels: Vec<SelList> = vec![];
